@@ -99,7 +99,7 @@ Definition step (_ : unit) (o : op) : unit * out * list N :=
   | OCid cid =>
       let g := go_cid_key cid in
       let hit := match c_cid_key cid with Some k => l_eqb k g | None => false end in
-      (tt, [g; [b2n hit]], if hit then [] else [if (Nat.ltb CID_LEN (List.length cid)) then 621 else 622])
+      (tt, [g; [b2n hit]], if Nat.ltb CID_LEN (List.length cid) then [621] else [])
   | OVlan s c p1 p2 =>
       let g := go_vlan_key s c in
       let hit := l_eqb g (c_vlan_key (p1 * 4096 + s) (p2 * 4096 + c)) in
@@ -136,7 +136,8 @@ Definition accept (_ : unit) (o : op) (r : out) : unit + N :=
       end
   | OMac _ => if all_ones (last_flags r) then inl tt else inr CL_MAC
   | OIp _ _ => if all_ones (last_flags r) then inl tt else inr CL_IPV4
-  | OCid _ => if all_ones (last_flags r) then inl tt else inr CL_CID
+  | OCid cid => (* an empty circuit-id is "no circuit-id": nothing to agree on *)
+      match cid with [] => inl tt | _ => if all_ones (last_flags r) then inl tt else inr CL_CID end
   | OVlan _ _ _ _ => if all_ones (last_flags r) then inl tt else inr CL_VLAN
   | OAlg _ _ => if all_ones (last_flags r) then inl tt else inr CL_ALG
   | OLpm _ _ _ => match last_flags r with [h; w] => if h =? w then inl tt else inr CL_LPM | _ => inr CL_LPM end
